@@ -7,7 +7,7 @@ import time
 from .util import VERIF, canon_hash
 
 MAX_SAMPLES = 6
-MAX_VIOL_KEPT = 40
+MAX_VIOL_KEPT = 90
 
 
 class Inconclusive(Exception):
@@ -87,7 +87,10 @@ class Ctx:
     def violation(self, clause, kind, payload, detail, model=None, regime=None):
         """Record one violating observation; self-contained so that --replay can re-judge it."""
         self.nviol += 1
-        if len(self.violations) < MAX_VIOL_KEPT:
+        cls = (clause, model, regime)
+        self._per_class = getattr(self, "_per_class", {})
+        self._per_class[cls] = self._per_class.get(cls, 0) + 1
+        if self._per_class[cls] <= 3 and len(self.violations) < MAX_VIOL_KEPT:
             self.violations.append(
                 dict(check=self.check, clause=clause, kind=kind, payload=payload, detail=detail,
                      model=model, regime=regime, seed=self.seed, shard=self.shard, tier=self.tier)
